@@ -9,12 +9,15 @@ package pubsub
 
 import (
 	"context"
+	"crypto/sha256"
+	"encoding/hex"
 	"fmt"
 	"sort"
 	"strings"
 	"testing"
 	"time"
 
+	pb "github.com/libp2p/go-libp2p-pubsub/pb"
 	"pgregory.net/rapid"
 )
 
@@ -43,7 +46,9 @@ type c01Case struct {
 	Flood   bool       `json:"flood_publish"`
 	Lat     []int      `json:"lat"`
 	Rounds  []c01Round `json:"rounds"`
-	Size    int        `json:"size"` // payload size class: 0 small, 1 above the IDONTWANT threshold
+	Size    int        `json:"size"`            // payload size class: 0 small, 1 above the IDONTWANT threshold
+	IDFn    int        `json:"idfn,omitempty"`  // 1: every node uses a content-based message ID with a long common prefix (namespaced IDs of about 50 bytes)
+	Batch   bool       `json:"batch,omitempty"` // gossipsub publishers publish through one reused MessageBatch per node
 }
 
 // parameter sets: 0 = defaults; the small-degree sets make a node with more than Dhi neighbours prune, so that the
@@ -148,6 +153,8 @@ func (s *c01State) apply(op c01Op) {
 func c01Gen(rt *rapid.T) c01Case {
 	c := c01Case{N: rapid.IntRange(2, 10).Draw(rt, "n"), Params: rapid.SampledFrom([]int{0, 0, 1, 1, 2}).Draw(rt, "params"),
 		Flood: rapid.IntRange(0, 3).Draw(rt, "flood") > 0, Size: rapid.SampledFrom([]int{0, 0, 0, 1}).Draw(rt, "size")}
+	c.IDFn = rapid.SampledFrom([]int{0, 0, 1}).Draw(rt, "idfn")
+	c.Batch = rapid.IntRange(0, 3).Draw(rt, "batch") == 0
 	mix := rapid.SampledFrom([]string{"gossipsub", "gossipsub", "mixed", "mixed", "floodsub", "randomsub"}).Draw(rt, "mix")
 	for i := 0; i < c.N; i++ {
 		r := mix
@@ -354,6 +361,9 @@ func c01RunInBubble(t *testing.T, c c01Case, res *vfResult) {
 		if c.Routers[i] == "gossipsub" {
 			opts = append(opts, WithGossipSubParams(c01Params(c.Params)), WithFloodPublish(c.Flood))
 		}
+		if c.IDFn == 1 {
+			opts = append(opts, WithMessageIdFn(c01NamespacedID))
+		}
 		if err := s.start(i, c.Routers[i], opts...); err != nil {
 			res.Inconclusive = err.Error()
 			return
@@ -374,6 +384,22 @@ func c01RunInBubble(t *testing.T, c c01Case, res *vfResult) {
 			handles[i] = th
 		}
 		return handles[i]
+	}
+	batches := make([]MessageBatch, N)
+	pub := func(node int, th *Topic, data string) error {
+		if c.Batch && c.Routers[node] == "gossipsub" {
+			if err := th.AddToBatch(context.Background(), &batches[node], []byte(data)); err != nil {
+				return err
+			}
+			return s.nodes[node].ps.PublishBatch(&batches[node])
+		}
+		return th.Publish(context.Background(), []byte(data))
+	}
+	if c.Batch {
+		res.label("batch-publishing")
+	}
+	if c.IDFn == 1 {
+		res.label("namespaced-content-ids")
 	}
 	pad := ""
 	if c.Size == 1 {
@@ -512,7 +538,7 @@ func c01RunInBubble(t *testing.T, c c01Case, res *vfResult) {
 			for k := 0; k < r.Warm; k++ {
 				seq++
 				data := fmt.Sprintf("r%d-n%d-w%d%s", ri, r.Pubs[0].Node, seq, pad)
-				if err := th.Publish(context.Background(), []byte(data)); err != nil {
+				if err := pub(r.Pubs[0].Node, th, data); err != nil {
 					res.violate("C01/publish-error", ri, "node %d: Publish failed: %v", r.Pubs[0].Node, err)
 					return
 				}
@@ -530,7 +556,7 @@ func c01RunInBubble(t *testing.T, c c01Case, res *vfResult) {
 			for k := 0; k < p.N; k++ {
 				seq++
 				data := fmt.Sprintf("r%d-n%d-m%d%s", ri, p.Node, seq, pad)
-				if err := th.Publish(context.Background(), []byte(data)); err != nil {
+				if err := pub(p.Node, th, data); err != nil {
 					res.violate("C01/publish-error", ri, "node %d: Publish failed: %v", p.Node, err)
 					return
 				}
@@ -647,4 +673,11 @@ func c01Overlay(st *c01State, c c01Case) string {
 
 func TestVfC01Delivery(t *testing.T) {
 	vfCheck(t, "C01", c01Gen, c01Run)
+}
+
+// c01NamespacedID: a content-based message ID of the form applications use (namespace/version/digest): about 50 bytes,
+// the first 34 of them the same for every message.
+func c01NamespacedID(m *pb.Message) string {
+	h := sha256.Sum256(m.Data)
+	return "app.example.org/v1/messages/sha256/" + hex.EncodeToString(h[:8])
 }
